@@ -341,6 +341,19 @@ impl<B: Sym> HuffMachine<B> {
             if &o != item {
                 return Err(format!("after {what}: into_owned of item #{k} gives {}", crate::spec::show(&o)));
             }
+            // IntoOwned laws on (possibly encoded) items: clone_onto over a shorter and a longer target
+            for t0 in [vec![], vec![item.first().copied().unwrap_or(B::from_u16(1)); item.len() + 2]] {
+                let mut t = t0.clone();
+                guard(|| c.index(*idx).clone_onto(&mut t)).map_err(|p| format!("after {what}: clone_onto of item #{k} panicked: {p}"))?;
+                if &t != item {
+                    return Err(format!(
+                        "after {what}: clone_onto(item #{k} = {}, target of {} symbols) leaves {}",
+                        crate::spec::show(item),
+                        t0.len(),
+                        crate::spec::show(&t)
+                    ));
+                }
+            }
         }
         Ok(())
     }
